@@ -66,6 +66,7 @@ type Obligation struct {
 	Axioms  []*Term // quantified axioms of spec functions (used only if the axiom-free query is not unsat)
 	Slow    bool
 	relaxed bool
+	ground  bool
 	CandidateKind string
 	Candidate string // model of the axiom-free query when the full query is undecided
 }
